@@ -63,6 +63,7 @@ type ObResult struct {
 	Desc      string  `json:"desc,omitempty"`
 	Detail    string  `json:"detail,omitempty"`
 	model     map[string]string
+	inputs    map[string]string
 	query     string
 	output    string
 	fn        string
@@ -78,18 +79,19 @@ type fnResult struct {
 	paths   int
 	ctx     *Ctx
 	whens   map[string][]Term // obligation name -> known-finding conditions
+	footprint []fpItem
 	bounded string
 }
 
 type checkRun struct {
-	id      string
-	tier    string
-	timeout int
-	verbose bool
-	db      *SpecDB
-	ld      *Loaded
-	results []*fnResult
-	kf      []knownFinding
+	id         string
+	tier       string
+	timeout    int
+	verbose    bool
+	db         *SpecDB
+	ld         *Loaded
+	results    []*fnResult
+	kf         []knownFinding
 	noEvidence bool
 }
 
@@ -237,6 +239,7 @@ func (run *checkRun) verifyFn(s *FnSpec) *fnResult {
 	fr.paths = ex.paths
 	fr.ctx = ex.ctx
 	fr.whens = ex.whens
+	fr.footprint = ex.footprint
 	if run.verbose {
 		fmt.Fprintf(os.Stderr, "  %s: %d obligation instances, %d paths, err=%v\n", s.fullName(), len(obligs), ex.paths, err)
 	}
@@ -315,7 +318,11 @@ func (run *checkRun) solveAll(dump string) []*ObResult {
 			if ws := j.fr.whens[j.ob.Name]; len(ws) > 0 && !j.ob.Cover {
 				asm = append(append([]Term{}, asm...), tNot(tOr(ws...)))
 			}
-			q := j.fr.ctx.Query(asm, j.ob.Goal, true)
+			var fpTerms []Term
+			for _, it := range j.fr.footprint {
+				fpTerms = append(fpTerms, it.Term)
+			}
+			q := j.fr.ctx.Query(asm, j.ob.Goal, true, fpTerms...)
 			if dump != "" && strings.Contains(j.ob.Name, dump) {
 				os.MkdirAll(filepath.Join(verifDir, "out", "dump"), 0o755)
 				os.WriteFile(filepath.Join(verifDir, "out", "dump", sanitize(j.ob.Name)+"_"+strconv.Itoa(i)+".smt2"), []byte(q), 0o644)
@@ -364,6 +371,13 @@ func (run *checkRun) solveAll(dump string) []*ObResult {
 			if o.Status != "failed" {
 				o.Status = "failed"
 				o.model = r.res.Model
+				o.inputs = map[string]string{}
+				vals := parseValues(r.res.Output)
+				for k, it := range r.fr.footprint {
+					if k < len(vals) {
+						o.inputs[it.Label] = vals[k]
+					}
+				}
 				o.query = r.q
 				o.output = r.res.Output
 			}
